@@ -208,7 +208,7 @@ def tables():
     path = os.path.join(wdir("tables"), "classes.json")
     src = os.path.join(TLA, "JsonText.tla")
     stamp = path + ".stamp"
-    h = hashlib.sha1(open(src, "rb").read()).hexdigest()
+    h = hashlib.sha1(open(src, "rb").read() + open(os.path.join(TLA, "Tables.tla"), "rb").read()).hexdigest()
     if os.path.exists(path) and os.path.exists(stamp) and open(stamp).read() == h:
         return path
     outs = tlc_eval("Tables", cfg_text="CONSTANT MaxDepth = 3\n")
